@@ -510,6 +510,11 @@ func run(c *tcase) (o outcome) {
 		return
 	}
 	o.log = w.Log
+	if r := cl.Runaway(); r != "" {
+		o.viol = append(o.viol, "a read or the recovery behind it does not terminate: "+r)
+		o.infra = ""
+		return
+	}
 	o.trace = cl.Trace.Describe()
 	if failMsg != "" {
 		o.viol = append(o.viol, "actor: "+failMsg)
